@@ -219,7 +219,9 @@ func (p *Processor) ChargingDataCreate(
 		self.Lock()
 		recordSeq := self.LocalRecordSequenceNumber
 		self.Unlock()
-		chargingSessionId = ueId + consumerId + "-" + strconv.Itoa(int(recordSeq))
+		// SUPI, consumer name and counter are delimited: creates for different subscribers may read the same
+		// counter value, so the reference must not depend on where the SUPI ends and the name begins either
+		chargingSessionId = ueId + "-" + consumerId + "-" + strconv.Itoa(int(recordSeq))
 	}
 	cdr, err := p.OpenCDR(chargingData, ue, chargingSessionId, false)
 	if err != nil {
